@@ -55,11 +55,16 @@ func (s *synchronizer) sync(_ context.Context, res Response) (Response, bool, er
 	if !res.Ack {
 		s.cycle.res.Ack = false
 	}
+	if res.Error != nil && s.cycle.res.Error == nil {
+		s.cycle.res.Error = res.Error
+	}
 
 	fulfilled := s.cycle.counter == s.nodeCount
 	if fulfilled {
 		s.cycle.counter = 0
 	}
 
-	return res, fulfilled, nil
+	// Emit the acknowledgement merged over every node, not the one that happened to
+	// arrive last.
+	return s.cycle.res, fulfilled, nil
 }
